@@ -77,13 +77,13 @@ PROFILES = {
                    w={"close": 8, "release": 7, "persona": 3, "adv_long": 1.5, "adv_sweep": 2, "adv_small": 6}),
     "C17": profile(unicode_p=0.5, welcome_p=0.7, share_ids_p=0.05,
                    w={"bad": 14, "connect_unbound": 2, "ping": 2, "third": 1}),
-    "C10": profile(steps=(6, 22), usage_p=0.6, nsides=(2, 3), names=3, autoping_p=0.1,
+    "C10": profile(steps=(6, 22), usage_p=0.6, nsides=(2, 3), names=3, autoping_p=0.1, hold_p=0.0,
                    w={"claim": 9, "release": 7, "close": 8, "open": 7, "add": 5, "adv_sweep": 1.5, "adv_long": 1.0,
                       "restart": 0.3, "kill": 0.3, "persona": 2.5, "third": 0.8, "bad": 0.2, "stall": 0}),
     "C11": profile(napps=(1, 2), names=2, literal_ids=1, autoping_p=0.2,
                    w={"restart": 2.5, "kill": 0.0, "adv_sweep": 3, "open": 9, "add": 9, "connect": 9, "reconnect": 5,
                       "adv_min": 3, "jump": 0, "dbfault": 0, "split": 2.0}),
-    "C14": profile(nsides=(2, 3), names=3, w={"resend": 0.0, "third": 1.0, "close": 7, "release": 6, "claim": 8,
+    "C14": profile(nsides=(2, 3), names=3, hold_p=0.0, w={"resend": 0.0, "third": 1.0, "close": 7, "release": 6, "claim": 8,
                                                "open": 8, "restart": 0.5, "kill": 0.0}),
     "C18": profile(allow_list_p=0.5, w={"list": 6, "allocate": 6, "adv_long": 1.0}),
 }
@@ -499,6 +499,13 @@ class Gen(object):
         # sometimes coalesce consecutive sends of one connection into one segment
         if len(steps) >= 2 and self.rng.random() < self.p["batch_p"]:
             steps = self._batchify(steps)
+        # sometimes a command is delayed in flight: it reaches the server together
+        # with the connection's next command, after other connections' commands
+        if self.rng.random() < self.p["hold_p"]:
+            for k, st in enumerate(steps):
+                if st["op"] == "send" and "type" in st["m"] and st["m"]["type"] != "bind":
+                    steps[k] = {"op": "hold", "c": st["c"], "ms": [st["m"]]}
+                    break
         self.queue = steps[1:]
         self.emitted += 1
         return steps[0]
